@@ -34,11 +34,14 @@ func init() {
 				}
 				return ""
 			})
+			// histories: random walks of 25 op/3 calls from the initial table (TLC simulation of OpTableWalk.tla), replayed call by call
+			walks := "num=400"
 			if c.tier == "thorough" {
-				w := c.mcHolds("OpTableWalk", "OpTable_walk.cfg", tlcOpts{simulate: "num=3000", depth: 26, workers: 1})
-				cs2, rs2 := c.replay("optable", w.cases, replayOpts{})
-				c.judge("optable", cs2, rs2, func(cs, res map[string]J) string { in, _ := res["input"].(string); return in })
+				walks = "num=12000"
 			}
+			w := c.mcHolds("OpTableWalk", "OpTable_walk.cfg", tlcOpts{simulate: walks, depth: 26, workers: 1})
+			cs2, rs2 := c.replay("optable", w.cases, replayOpts{})
+			c.judge("optable", cs2, rs2, func(cs, res map[string]J) string { in, _ := res["input"].(string); return in })
 			c.exhaustive = true
 			var ds []string
 			for k, n := range drift {
